@@ -281,6 +281,18 @@ pub fn run(rep: &mut Report) {
             });
         }
     }
+    // order independence: differences of epochs for all 81 scale pairs at two instants, in every order
+    {
+        let oi: [i128; 2] = [3_692_217_700 * NS_S, 2_000_000_000 * NS_S + 5];
+        let lp = &leap;
+        crate::engine::order_pairs(rep, "c04.order", 81 * 2, |i, out| {
+            let (lt, rt) = (SCALES[((i / 2) / 9) as usize], SCALES[((i / 2) % 9) as usize]);
+            let t = oi[(i % 2) as usize];
+            let lc = crate::oracle::scales::from_tai(t, lt, lp).unwrap_or(t);
+            let rc = crate::oracle::scales::from_tai(t - 86_400 * NS_S - 7, rt, lp).unwrap_or(t);
+            j_cross(lt, lc, rt, rc, lp, out)
+        });
+    }
     let depth = if deep { 5 } else { 4 };
     rep.bound("seq_depth", depth as u64);
     for ts in SCALES {
